@@ -548,6 +548,17 @@ theorem fnOK_sound {P : Names} {body : Sk} (hok : fnOK P body = true)
     rw [hfree] at hr
     exact runDefs_sound hall' hr rfl
 
+/-- acceptance without a requirement on the final state (used where the "mutex" is a
+one-way gate that is never released: *gate domination*) -/
+def entryOK (P : Names) (body : Sk) : Bool := (chk P body (.only .free)).isSome
+
+theorem entryOK_sound {P : Names} {body : Sk} (hok : entryOK P body = true)
+    {o : Out} {m : M} {v : Bool} (he : Exec P body .free o m v) : v = false := by
+  unfold entryOK at hok
+  cases hc : chk P body (.only .free) with
+  | none => simp [hc] at hok
+  | some r => exact (chk_sound he hc (only_mem_self _)).1
+
 /-- a helper that expects the mutex to be held by its caller: accepted entered "held",
 never releases it, defers nothing that touches the state -/
 def helperOK (P : Names) (body : Sk) : Bool :=
